@@ -3,6 +3,7 @@ import Rough.Driver.Merkle
 import Rough.Driver.Server
 import Rough.Driver.Keys
 import Rough.Driver.Stats
+import Rough.Driver.Client
 open Rough Rough.Driver
 
 def dispatch (op : String) (args : List String) (impl : String) : Verdict :=
@@ -18,6 +19,8 @@ def dispatch (op : String) (args : List String) (impl : String) : Verdict :=
   | "srep" => opSrep args impl
   | "stats" => opStats args impl
   | "rep" => opRep args impl
+  | "client" => opClient args impl
+  | "respond" => opRespond (args ++ [impl])
   | _ => bad ("unknown op " ++ op)
 
 def handle (line : String) : String :=
@@ -33,6 +36,7 @@ partial def loop (h : IO.FS.Stream) (out : IO.FS.Stream) : IO Unit := do
   if line.isEmpty then return ()
   let l := if line.endsWith "\n" then (line.dropEnd 1).toString else line
   out.putStrLn (handle l)
+  out.flush
   loop h out
 
 def main : IO Unit := do
